@@ -584,7 +584,8 @@ Section RK4.
     fold h. change (@sadd R ScalarR t0 (@smul R ScalarR (vget rkA i) h)) with t.
     rewrite (next_position_hs h (vget rkA i) n (joints m) Q Vc qp Hj Hq).
     rewrite next_velocity_pw.
-    rewrite (next_activation_plain h (vget rkA i) false na (acts m) A Dc ac Ha Hac).
+    unfold rk_perturb_activation.
+    rewrite (vmap2_pw (fun a ad => a + vget rkA i * ad * h) na A Dc).
     fold (sQ Q Vc (vget rkA i)) (sV V Ac (vget rkA i)) (sA A Dc (vget rkA i)).
     destruct (fwd (sQ Q Vc (vget rkA i)) (sV V Ac (vget rkA i)) (sA A Dc (vget rkA i)) t) as [A' D'] eqn:E. cbn [fst snd].
     unfold rk_accumulate. cbn [qpos qvel act time qacc act_dot warmstart].
@@ -875,6 +876,90 @@ Qed.
 End TTie.
 
 Local Close Scope string_scope.
+
+(* ---- euler(): implicit polynomial joint damping -------------------------------------------------- *)
+Local Open Scope string_scope.
+Local Open Scope list_scope.
+Section TTieDamp.
+Context {S : Type} `{Scalar S}.
+Local Open Scope Z_scope.
+
+(* util_misc._poly_force_deriv with flg_odd = 1 is the model's damping_deriv *)
+Lemma damping_deriv_is_translated (d p0 p1 v : S) :
+  Gen.kforward._poly_force_deriv d [p0; p1] v 1 = damping_deriv d p0 p1 v.
+Proof. reflexivity. Qed.
+
+(* the kernel _compute_damping_deriv stores damping_deriv (flag 1: |v|) of its dof *)
+Lemma compute_damping_deriv_is_kernel (w i : Z) (damp : Z -> Z -> S) (dpoly : Z -> Z -> list S)
+    (qvel : Z -> Z -> S) (out : Z -> Z -> S) (orc : nat -> Z) (n1 n2 : Z) (p0 p1 : S) :
+  dpoly (Z.rem w n2) i = [p0; p1] ->
+  Gen.kforward.k__compute_damping_deriv w i damp dpoly qvel out orc n1 n2
+  = [mkW "deriv_out" [w; i] KSet (VS (damping_deriv (damp (Z.rem w n1) i) p0 p1 (qvel w i)))].
+Proof. intros E. unfold Gen.kforward.k__compute_damping_deriv. cbv zeta. rewrite E. reflexivity. Qed.
+
+(* the kernel _euler_damp_qfrc adds timestep * deriv to the entry rowadr + rownnz - 1 of the cloned M *)
+Lemma euler_damp_qfrc_is_kernel (w t : Z) (ts : Z -> S) (h : S) (rownnz rowadr : Z -> Z)
+    (deriv : Z -> Z -> S) (M : Z -> Z -> S) (orc : nat -> Z) (nts : Z) :
+  ts (Z.rem w nts) = h ->
+  let adr := rowadr t + rownnz t - 1 in
+  Gen.kforward.k__euler_damp_qfrc w t ts rownnz rowadr deriv M orc nts
+  = [mkW "M_integration_out" [w; adr] KSet (VS (sadd (M w adr) (smul h (deriv w t))))].
+Proof. intros E adr. unfold Gen.kforward.k__euler_damp_qfrc. cbv zeta. rewrite E. reflexivity. Qed.
+End TTieDamp.
+
+Local Close Scope string_scope.
+Local Open Scope R_scope.
+
+(* value of the damper derivative for EVERY velocity: it depends on |v| only (the damper force
+   v (d + p0 |v| + p1 v^2) is odd, its derivative even) *)
+Lemma damping_deriv_formula (d p0 p1 v : R) :
+  damping_deriv d p0 p1 v = d + 2 * p0 * Rabs v + 3 * p1 * (v * v).
+Proof.
+  assert (E : Rabs v * Rabs v = v * v).
+  { rewrite <- Rabs_mult. apply Rabs_pos_eq. nra. }
+  unfold damping_deriv. sR. cbv zeta.
+  replace (IZR 3 * p1 * Rabs v * Rabs v) with (3 * p1 * (Rabs v * Rabs v)) by ring.
+  rewrite E. ring.
+Qed.
+
+Lemma damping_deriv_even (d p0 p1 v : R) : damping_deriv d p0 p1 (- v) = damping_deriv d p0 p1 v.
+Proof. rewrite !damping_deriv_formula, Rabs_Ropp. ring. Qed.
+
+(* it is the derivative of the damper force f(v) = v (d + p0 |v| + p1 v^2) away from 0 on either side *)
+Lemma damping_deriv_is_slope_pos (d p0 p1 v : R) : 0 < v ->
+  derivable_pt_lim (fun x => x * (d + p0 * x + p1 * (x * x))) v (damping_deriv d p0 p1 v).
+Proof.
+  intros Hv. rewrite damping_deriv_formula, (Rabs_pos_eq v) by lra.
+  replace (d + 2 * p0 * v + 3 * p1 * (v * v))
+    with (1 * (d + p0 * v + p1 * (v * v)) + v * (0 + p0 * 1 + p1 * (1 * v + v * 1))) by ring.
+  apply (derivable_pt_lim_mult (fun x => x) (fun x => d + p0 * x + p1 * (x * x))).
+  - apply derivable_pt_lim_id.
+  - apply (derivable_pt_lim_plus (fun x => d + p0 * x) (fun x => p1 * (x * x))).
+    + apply (derivable_pt_lim_plus (fun _ => d) (fun x => p0 * x)).
+      * apply derivable_pt_lim_const.
+      * apply (derivable_pt_lim_scal (fun x => x) p0 v 1). apply derivable_pt_lim_id.
+    + apply (derivable_pt_lim_scal (fun x => x * x) p1 v (1 * v + v * 1)).
+      apply (derivable_pt_lim_mult (fun x => x) (fun x => x)); apply derivable_pt_lim_id.
+Qed.
+
+Lemma damping_deriv_is_slope_neg (d p0 p1 v : R) : v < 0 ->
+  derivable_pt_lim (fun x => x * (d + p0 * (- x) + p1 * (x * x))) v (damping_deriv d p0 p1 v).
+Proof.
+  intros Hv. rewrite damping_deriv_formula, (Rabs_left v) by lra.
+  replace (d + 2 * p0 * - v + 3 * p1 * (v * v))
+    with (1 * (d + p0 * (- v) + p1 * (v * v)) + v * (0 + p0 * (- 1) + p1 * (1 * v + v * 1))) by ring.
+  apply (derivable_pt_lim_mult (fun x => x) (fun x => d + p0 * (- x) + p1 * (x * x))).
+  - apply derivable_pt_lim_id.
+  - apply (derivable_pt_lim_plus (fun x => d + p0 * (- x)) (fun x => p1 * (x * x))).
+    + apply (derivable_pt_lim_plus (fun _ => d) (fun x => p0 * (- x))).
+      * apply derivable_pt_lim_const.
+      * apply (derivable_pt_lim_scal (fun x => - x) p0 v (- 1)).
+        apply (derivable_pt_lim_opp (fun x => x) v 1). apply derivable_pt_lim_id.
+    + apply (derivable_pt_lim_scal (fun x => x * x) p1 v (1 * v + v * 1)).
+      apply (derivable_pt_lim_mult (fun x => x) (fun x => x)); apply derivable_pt_lim_id.
+Qed.
+
+Local Close Scope R_scope.
 
 (* ---- S tie: the host code of forward.py has the stage order the model copies ------------------- *)
 From Coq Require String.
